@@ -8,8 +8,8 @@ kf = json.load(open(os.path.join(V, "known_findings.json")))["findings"]
 print("### 0.4 Status per property\n")
 print("| prop. | theorems in `Props/` (all `Print Assumptions`: closed) | model files | defects repaired / recorded | what remains assumed or only sampled |")
 print("|---|---|---|---|---|")
-MODELS = {"C01": "Safety, SafetySites (+ all component models)", "C02": "Keys", "C03": "Cert", "C04": "Determinism", "C05": "Routes, Pem", "C06": "Containers",
-          "C07": "Dispatch", "C08": "Cost", "C09": "State", "C10": "Walk", "C11": "PgpEntity, PgpKey", "C12": "PgpKey, PgpEntity", "C13": "Der",
+MODELS = {"C01": "Safety, SafetySites (+ all component models)", "C02": "Keys, KeysDer", "C03": "Cert, CertDer, NameDer", "C04": "Determinism", "C05": "Routes, Pem", "C06": "Containers, ContainersSsh (+ C02's Keys)",
+          "C07": "Dispatch", "C08": "Cost, CostPgp, CostArmorVariant", "C09": "State", "C10": "Walk", "C11": "PgpEntity, PgpKey", "C12": "PgpKey, PgpEntity, Lib/Sha1", "C13": "Der (+ Render for the printed dump)",
           "C14": "Base64", "C15": "Dn (+ Lib/Rfc4514 spec)", "C16": "Curve (+ Spec/C16)", "C17": "Uuid (+ Spec/C17)", "C18": "Jwt", "C19": "Rpm", "C20": "Render"}
 for p in props:
     c = p["id"]
